@@ -614,7 +614,7 @@ def gen_pairs(rng, depth):
 
 
 def gen_zone(rng):
-    return {"z": [rng.choice(["```", "````"]), rng.choice(["", "py", "json"]), rng.choice(["", "x = 1", "a\n  b\n\nc", "K::v\n===END==="])]}
+    return {"z": [rng.choice(["```", "````"]), rng.choice(["", "py", "json"]), rng.choice(["", "x = 1", "a\n  b\n\nc", "K::v\n===END===", "hard break  \nnext", "tab\t\n   \nend", "\ttrailing tab\t"])]}
 
 
 def gen_node(rng, depth, top, for_text, keys):
@@ -666,7 +666,7 @@ def gen_doc(rng, for_text):
     front, grammar = None, None
     q = rng.random()
     if q < 0.08:
-        front = "title: x\ntags: [a, b]"
+        front = rng.choice(["title: x\ntags: [a, b]", "title: x  \nnote: trailing spaces above"])
     elif q < 0.16:
         grammar = "5.1.0"
     return {"front": front, "grammar": grammar, "name": rng.choice(["DOC", "MY_DOC", "SPEC_V2"]), "meta": meta,
